@@ -163,6 +163,8 @@ def property_theorems(props_file):
 
 AX_RE = re.compile(r"'([^']+)' depends on axioms: \[([^\]]*)\]")
 NOAX_RE = re.compile(r"'([^']+)' does not depend on any axioms")
+# names may end in primes: anchor on the message kind and on what follows the closing quote
+AX2_RE = re.compile(r"(?:^|\s)'(\S+?)' (?:depends on axioms: \[([^\]]*)\]|does not depend on any axioms)")
 
 
 def check_props_file(rel, names):
@@ -183,10 +185,11 @@ def check_props_file(rel, names):
             f.write(f"import {mod}\n" + "".join(f"#print axioms {n}\n" for n in names))
         rc2, out2 = _run(["lake", "env", "lean", apath], cwd=LEAN, timeout=3000)
         flat = out2.replace("\n ", " ").replace("\n", " ")
-        for m in AX_RE.finditer(flat):
-            ax[m.group(1)] = {a.strip() for a in m.group(2).split(",") if a.strip()}
-        for m in NOAX_RE.finditer(out2):
-            ax[m.group(1)] = set()
+        for m in AX2_RE.finditer(flat):
+            if m.group(2) is None:
+                ax[m.group(1)] = set()
+            else:
+                ax[m.group(1)] = {a.strip() for a in m.group(2).split(",") if a.strip()}
         out += "\n" + out2
     return (not has_err), ax, out
 
